@@ -75,7 +75,7 @@ def gen_switch(rng, sid, big):
         plo, phi = None, None    # plain char: decided per target
     else:
         plo, phi = (-(1 << (tb - 1)), (1 << (tb - 1)) - 1) if tsigned else (0, (1 << tb) - 1)
-    sw = {"id": sid, "type": t, "ptype": pt, "keys": keys, "hasdef": hasdef, "prange": (plo, phi), "shape": rng.choice(["plain", "loop", "nested"])}
+    sw = {"id": sid, "type": t, "ptype": pt, "keys": keys, "hasdef": hasdef, "prange": (plo, phi), "shape": rng.choice(["plain", "loop", "nested", "duff", "inif"])}
     # how each constant is written: a third of the small switches spell constants out of the range of the promoted type
     if not big and rng.random() < 0.35:
         sw["written"] = [writings(pt, k, rng)[0] for k in keys]
@@ -109,10 +109,21 @@ def render(sw, probes):
     elif sw["shape"] == "nested":
         pre, post = "\tswitch (v == 0) { case 0: case 1:\n", "\t\tbreak;\n\t}\n"
     o += pre + "\tswitch (v) {\n"
+    # case and default labels may sit inside statements nested in the switch body (6.8.4.2p2: "in or on the switch body");
+    # 'duff': all labels inside a do-while whose break leaves the loop, after which the switch body ends; 'inif': inside the
+    # body of an if that control never enters from the top
+    if sw["shape"] == "duff":
+        o += "\tdo {\n"
+    elif sw["shape"] == "inif":
+        o += "\tif (v == 12345 && v != 12345) {\n"
     for i, k in enumerate(sw["keys"]):
         o += "\tcase %s: r = %d; break;\n" % (sw["written"][i][0], i + 1)
         if i == len(sw["keys"]) // 2 and sw["hasdef"]:
             o += "\tdefault: r = 0; break;\n"
+    if sw["shape"] == "duff":
+        o += "\t} while (0);\n"
+    elif sw["shape"] == "inif":
+        o += "\t}\n"
     o += "\t}\n" + post + "\treturn r;\n}\n"
     lt = "long long" if SIGNED[pt] or pt in ("int",) else "unsigned long long"
     o += "%s probes[%d] = {%s};\n" % (CNAME[t], len(probes), ", ".join("(%s)%s" % (CNAME[t], clit("llong" if p < 2 ** 63 else "ullong", p)) for p in probes))
